@@ -127,6 +127,10 @@ func dump(v reflect.Value, sb *strings.Builder, seen map[uintptr]int, depth int)
 type doc struct {
 	Root  string       `json:"root"`
 	Files map[string]M `json:"files"`
+	// ParseOnly: compare parsed APIs only (the generator refuses two components of the same name
+	// from different files with a name-conflict diagnostic when they yield Go type names, and Expand
+	// reports a "local ref conflict" because it cannot name both: diagnostics by design)
+	ParseOnly bool `json:"parse_only,omitempty"`
 }
 
 type result struct {
@@ -190,6 +194,9 @@ func run(d doc, withGen bool) (res result) {
 	var sb strings.Builder
 	dump(reflect.ValueOf(api), &sb, map[uintptr]int{}, 0)
 	res.Dump = sb.String()
+	if d.ParseOnly {
+		return
+	}
 	// the dereferenced spec ogen can emit parses back to an equivalent API
 	if exp, err := parser.Expand(api); err != nil {
 		res.Expand = "Expand failed: " + err.Error()
@@ -432,7 +439,7 @@ func relPath(dir, target string) string {
 }
 
 func inline(d doc, sites []site, chosen []int) doc {
-	out := doc{Root: d.Root, Files: map[string]M{}}
+	out := doc{Root: d.Root, ParseOnly: d.ParseOnly, Files: map[string]M{}}
 	for n, f := range d.Files {
 		out.Files[n] = deepCopy(f).(M)
 	}
@@ -547,22 +554,53 @@ func bases() []baseDoc {
 		return m
 	}
 	out = append(out,
-		baseDoc{"schema in a sibling file that refers on within that file", doc{"root.json", map[string]M{
+		baseDoc{"schema in a sibling file that refers on within that file", doc{Root: "root.json", Files: map[string]M{
 			"root.json":  head(M{"/a": M{"post": op("a", M{"requestBody": jb(R("other.json#/components/schemas/S"))})}}, nil),
 			"other.json": {"components": M{"schemas": M{"S": M{"type": "object", "properties": M{"a": strS, "t": R("#/components/schemas/T")}}, "T": M{"type": "integer"}}}}}}},
-		baseDoc{"chain root -> dir/f1 -> dir/f2 with relative references", doc{"root.json", map[string]M{
+		baseDoc{"chain root -> dir/f1 -> dir/f2 with relative references", doc{Root: "root.json", Files: map[string]M{
 			"root.json":   head(M{"/a": M{"post": op("a", M{"requestBody": jb(R("dir/f1.json#/S"))})}}, nil),
 			"dir/f1.json": {"S": M{"type": "object", "properties": M{"x": R("f2.json#/T"), "y": R("#/U")}}, "U": M{"type": "boolean"}},
 			"dir/f2.json": {"T": M{"type": "string", "enum": []any{"p", "q"}}}}}},
-		baseDoc{"external file referring back into the root", doc{"root.json", map[string]M{
+		baseDoc{"external file referring back into the root", doc{Root: "root.json", Files: map[string]M{
 			"root.json":  head(M{"/a": M{"post": op("a", M{"requestBody": jb(R("other.json#/S"))})}}, M{"schemas": M{"Rt": strS}}),
 			"other.json": {"S": M{"type": "object", "properties": M{"r": R("root.json#/components/schemas/Rt")}}}}}},
-		baseDoc{"same external target from two sites, two spellings of the file", doc{"root.json", map[string]M{
+		baseDoc{"same external target from two sites, two spellings of the file", doc{Root: "root.json", Files: map[string]M{
 			"root.json":  head(M{"/a": M{"post": op("a", M{"requestBody": jb(R("other.json#/S")), "responses": M{"200": M{"description": "ok", "content": M{"application/json": M{"schema": R("./other.json#/S")}}}}})}}, nil),
 			"other.json": {"S": M{"type": "object", "properties": M{"a": strS}}}}}},
-		baseDoc{"external parameter, requestBody, response -> header -> schema", doc{"root.json", map[string]M{
+		baseDoc{"external parameter, requestBody, response -> header -> schema", doc{Root: "root.json", Files: map[string]M{
 			"root.json":  head(M{"/a/{id}": M{"post": M{"operationId": "a", "parameters": []any{R("other.json#/P")}, "requestBody": R("other.json#/B"), "responses": M{"200": R("other.json#/R")}}}}, nil),
 			"other.json": {"P": M{"name": "id", "in": "path", "required": true, "schema": R("#/S")}, "S": strS, "B": M{"content": M{"application/json": M{"schema": R("#/S")}}}, "R": M{"description": "ok", "headers": M{"X-A": R("#/H")}, "content": M{"application/json": M{"schema": R("#/S")}}}, "H": M{"schema": R("#/S")}}}}},
+	)
+	// the same component names, with different content, in the root and in an external file whose
+	// own references are written in the usual local form: a local reference must be resolved in the
+	// file it is written in (a seeded change that looked names up in the root's components first
+	// was missed while no name was shared between files)
+	rootS := M{"type": "object", "properties": M{"z": M{"type": "integer"}}}
+	otherS := M{"type": "object", "required": []any{"a"}, "properties": M{"a": M{"type": "string", "minLength": 3}}}
+	var sharedComps func(sn string, s M, pname, pin, desc, exv string) M
+	sharedComps = func(sn string, s M, pname, pin, desc, exv string) M {
+		R := func(p string) M { return M{"$ref": strings.Replace(p, "/schemas/S", "/schemas/"+sn, 1)} }
+		return M{
+			"schemas":       M{sn: s},
+			"parameters":    M{"P": M{"name": pname, "in": pin, "required": true, "schema": R("#/components/schemas/S"), "style": map[string]string{"query": "deepObject", "header": "simple"}[pin], "explode": pin == "query"}, "Wrap": R("#/components/parameters/P")},
+			"headers":       M{"H": M{"required": pin == "query", "schema": M{"type": "string", "maxLength": len(desc)}}},
+			"examples":      M{"E": M{"summary": desc, "value": M{"a": exv}}},
+			"requestBodies": M{"B": M{"required": pin == "query", "content": M{"application/json": M{"schema": R("#/components/schemas/S"), "examples": M{"e": R("#/components/examples/E")}}}}, "Wrap": R("#/components/requestBodies/B")},
+			"responses":     M{"R": M{"description": desc, "headers": M{"X-H": R("#/components/headers/H")}, "content": M{"application/json": M{"schema": R("#/components/schemas/S")}}}, "Wrap": R("#/components/responses/R")},
+		}
+	}
+	sharedNames := func(otherSchema string, parseOnly bool) doc {
+		return doc{Root: "root.json", ParseOnly: parseOnly, Files: map[string]M{
+			"root.json": head(M{
+				"/a": M{"post": M{"operationId": "a", "parameters": []any{R("other.json#/components/parameters/Wrap")}, "requestBody": R("other.json#/components/requestBodies/Wrap"), "responses": M{"200": R("other.json#/components/responses/Wrap")}}},
+				"/b": M{"post": M{"operationId": "b", "parameters": []any{R("#/components/parameters/Wrap")}, "requestBody": R("#/components/requestBodies/Wrap"), "responses": M{"200": R("#/components/responses/Wrap")}}},
+				"/c": M{"post": M{"operationId": "c", "parameters": []any{R("other.json#/components/parameters/P")}, "requestBody": R("other.json#/components/requestBodies/B"), "responses": M{"200": R("other.json#/components/responses/R"), "201": M{"description": "x", "headers": M{"X-1": R("other.json#/components/headers/H"), "X-2": R("#/components/headers/H")}}}}},
+			}, sharedComps("S", rootS, "rootq", "header", "root", "r")),
+			"other.json": {"components": sharedComps(otherSchema, otherS, "q", "query", "other-file", "o")}}}
+	}
+	out = append(out,
+		baseDoc{"parameter, header, example, requestBody and response names shared between the root and an external file (local references inside the external file; parse level only)", sharedNames("OS", true)},
+		baseDoc{"schema names shared as well (parse level only)", sharedNames("S", true)},
 	)
 	return out
 }
@@ -610,15 +648,15 @@ func cycles(thorough bool) []cycleCase {
 	// cycles across files
 	head := func(paths M) M { return M{"openapi": "3.0.3", "info": M{"title": "t", "version": "1"}, "paths": paths} }
 	out = append(out,
-		cycleCase{"schema cycle across two files", doc{"root.json", map[string]M{
+		cycleCase{"schema cycle across two files", doc{Root: "root.json", Files: map[string]M{
 			"root.json": head(M{"/a": M{"post": op("a", M{"requestBody": jb(R("f1.json#/A"))})}}),
 			"f1.json":   {"A": M{"type": "object", "properties": M{"b": R("f2.json#/B")}}},
 			"f2.json":   {"B": M{"type": "object", "properties": M{"a": R("f1.json#/A")}}}}}, "generates"},
-		cycleCase{"parameter cycle across two files", doc{"root.json", map[string]M{
+		cycleCase{"parameter cycle across two files", doc{Root: "root.json", Files: map[string]M{
 			"root.json": head(M{"/a": M{"get": op("a", M{"parameters": []any{R("f1.json#/P")}})}}),
 			"f1.json":   {"P": R("f2.json#/Q")},
 			"f2.json":   {"Q": R("f1.json#/P")}}}, ir},
-		cycleCase{"missing external file", doc{"root.json", map[string]M{
+		cycleCase{"missing external file", doc{Root: "root.json", Files: map[string]M{
 			"root.json": head(M{"/a": M{"get": op("a", M{"parameters": []any{R("nope.json#/P")}})}})}}, "error:"},
 	)
 	// chains around the depth limit (schemas, non-recursive)
@@ -766,7 +804,11 @@ func main() {
 					r.Violation(attrs("parse-outcome-differs-between-reference-and-inlined-copy"), len(j.chosen), k)
 				case res.Dump != j.ref.Dump:
 					k.Detail = firstDiff(j.ref.Dump, res.Dump)
-					r.Violation(attrs("parsed-API-differs-between-reference-and-inlined-copy"), len(j.chosen), k)
+					a := attrs("parsed-API-differs-between-reference-and-inlined-copy")
+					if stripExamples(j.ref.Dump) == stripExamples(res.Dump) {
+						a["cause"] = "examples-only"
+					}
+					r.Violation(a, len(j.chosen), k)
 				case (res.GenErr == "") != (j.ref.GenErr == "") && (len(j.chosen) <= 2 || len(j.chosen) >= len(j.sites)-1):
 					k.Detail = fmt.Sprintf("generation, referencing: %q / inlined: %q", j.ref.GenErr, res.GenErr)
 					r.Violation(attrs("generation-outcome-differs-between-reference-and-inlined-copy"), len(j.chosen), k)
@@ -847,5 +889,5 @@ func main() {
 	r.Assume("the inliner in cmd/c07 works on the raw JSON tree and is independent of ogen's resolver; references inside an inlined copy from another file are rebased to keep their meaning",
 		"API equality = structural dump of *openapi.API ignoring Ref, Pointer and Locator fields and yaml nodes",
 		"generation is run (CheckFS: templates + gofmt, no compile) for variants with <= 2 or >= r-1 inlined sites and for every referencing document; compilation of such packages is C02's subject")
-	r.Finish("base documents: 9 single-file reference graphs (every component kind: schema, parameter, header, response, requestBody, example, pathItem, securityScheme; chains of 2-3; one target from 2-4 sites under different names, paths, operations and codes; all kinds at once) and 5 multi-file topologies (sibling file, chain through a sub-directory with relative references, back reference into the root, two spellings of one file, external parameter/body/response->header->schema); for each, every non-empty subset of its reference sites is inlined (all 2^r for r <= 10/14, else all subsets of size <= 2 and >= r-1). cycles: 1-, 2- and 3-cycles for all 8 kinds, 8 schema recursion shapes, cycles across files, chains of 999/1000/1001/1500 references and nestings. distinct non-trivial = (base document, subset) or cycle case.")
+	r.Finish("base documents: 9 single-file reference graphs (every component kind: schema, parameter, header, response, requestBody, example, pathItem, securityScheme; chains of 2-3; one target from 2-4 sites under different names, paths, operations and codes; all kinds at once) and 6 multi-file topologies (component names shared between root and external file with local references inside the latter, sibling file, chain through a sub-directory with relative references, back reference into the root, two spellings of one file, external parameter/body/response->header->schema); for each, every non-empty subset of its reference sites is inlined (all 2^r for r <= 10/14, else all subsets of size <= 2 and >= r-1). cycles: 1-, 2- and 3-cycles for all 8 kinds, 8 schema recursion shapes, cycles across files, chains of 999/1000/1001/1500 references and nestings. distinct non-trivial = (base document, subset) or cycle case.")
 }
